@@ -65,6 +65,7 @@ pub struct SimCore {
     outer: Arc<Mutex<Option<Waker>>>,
     start: tokio::time::Instant,
     steps: Cell<u64>,
+    order: Cell<u64>,
     step_cap: u64,
     spin_budget: u64,
     last_now_ms: Cell<u64>,
@@ -166,6 +167,7 @@ where
             outer: Arc::new(Mutex::new(None)),
             start: tokio::time::Instant::now(),
             steps: Cell::new(0),
+            order: Cell::new(0),
             step_cap: params.step_cap,
             spin_budget: params.spin_budget,
             last_now_ms: Cell::new(0),
@@ -336,6 +338,13 @@ impl SimCore {
         }
         self.trace_hash.set(h);
         self.trace(data.len() as u64);
+    }
+
+    /// a world-wide strictly increasing sequence number (orders callbacks against transmissions)
+    pub fn next_order(&self) -> u64 {
+        let o = self.order.get() + 1;
+        self.order.set(o);
+        o
     }
 
     pub fn log_enabled(&self) -> bool {
